@@ -225,7 +225,7 @@ def rule_siblings(rep):
     def unsuffix(o):
         """locals brought in by an inlined helper carry a per-call-site suffix (`n__h5`): the comparison is up to those names"""
         if isinstance(o, str):
-            return _re.sub(r"__[htz]\d+", "", o)
+            return _re.sub(r"__[htzs]\d+", "", o)
         if isinstance(o, (list, tuple)):
             return type(o)(unsuffix(x) for x in o)
         return o
@@ -239,7 +239,15 @@ def cutoff_piecewise(facts):
     fn = facts.need_free_fn("asynchro_sinc", "make_interpolator")
     sx = SymExec(facts, None)
     st = sx.run(fn)
-    fc = st.locals.get("f_cutoff")
+    # by role, not by name: the cutoff / the length are what the kernel constructors receive as their third / first argument
+    news = [x for x in walk(fn["body"]) if x.get("k") == "call" and is_path(x["f"]) and x["f"]["p"].endswith("::new") and "Interpolator" in x["f"]["p"] and len(x["args"]) == 4]
+    if not news:
+        raise ir.AnchorMissing("make_interpolator: no kernel constructor call")
+
+    def val(a):
+        return st.locals.get(a["p"], a) if is_path(a) else a
+    fc = val(news[0]["args"][2])
+    st.kernel_len = val(news[0]["args"][0])
     return fn, fc, st
 
 
@@ -276,7 +284,7 @@ def rule_cutoff(rep, R, direction):
             detail = "cutoff = %s·f_cutoff when ratio ≥ 1, %s·f_cutoff·ratio^%s when ratio < 1; required: %s" % (k_up, k_down, e, want)
     rep.ob(R, "make_interpolator/cutoff", ok, detail, loc(fn), sample={"cutoff": show(fc)[:120]})
     # all kernel constructors receive that same value (checked by R-C15-dispatch: identical argument lists)
-    sinc_len = st.locals.get("sinc_len")
+    sinc_len = getattr(st, "kernel_len", None)
     if direction == "lower":
         a8 = Alg(TypeEnv(locals_={pn[0]: "int"}))
         from norm import ceil_f, trunc_f
